@@ -413,11 +413,15 @@ def _warm_ladim():
     import ladim.tracker as T
     z = np.linspace(-1, 0, 3)[:, None, None] * np.ones((3, 4, 4)) * 10
     X = np.array([1.5]); Y = np.array([1.5]); Z = np.array([2.0])
-    K, A = R.z2s(z, X, Y, Z)
-    R.sample3DUV(np.zeros((3, 4, 5)), np.zeros((3, 5, 4)), X, Y, K, A)
-    T.RKstep(X, Y, X, Y, 0.5, X, Y)
-    T.clip(X.copy(), Y.copy(), 0.0, 1.0, 0.0, 1.0)
-    T.RK4avg(X, X, X, X)
+    # best effort: these are private helpers; if one has another shape now it is compiled at its first real use instead
+    for warm in (lambda: R.sample3DUV(np.zeros((3, 4, 5)), np.zeros((3, 5, 4)), X, Y, *R.z2s(z, X, Y, Z)),
+                 lambda: T.RKstep(X, Y, X, Y, 0.5, X, Y),
+                 lambda: T.clip(X.copy(), Y.copy(), 0.0, 1.0, 0.0, 1.0),
+                 lambda: T.RK4avg(X, X, X, X)):
+        try:
+            warm()
+        except Exception:  # noqa: BLE001
+            pass
 
 
 def pmap(func, items, nproc=None, warm=True, chunksize=None):
@@ -428,7 +432,9 @@ def pmap(func, items, nproc=None, warm=True, chunksize=None):
         return []
     if warm:
         _warm_ladim()
-    nproc = nproc or min(16, os.cpu_count() or 4, max(1, len(items)))
+    # at most half as many workers as items: every worker runs several set-ups one after the other in one process (and in
+    # the same scratch path, see lab.scratch), so whatever a run leaves behind in the process meets a later, different run
+    nproc = nproc or min(16, os.cpu_count() or 4, max(1, (len(items) + 1) // 2))
     if nproc == 1 or len(items) < 4:
         return [func(x) for x in items]
     ctx = mp.get_context("fork")
